@@ -93,6 +93,10 @@ def render_class(c, pyx, unpicklable=None):
             out.append('        pass')
         if unpicklable:
             out.append('    def __reduce_ex__(self, proto):\n        raise TypeError("not picklable")')
+        elif not c['base']:
+            # CPython refuses protocol 0/1 for classes with __slots__ unless they define __getstate__ themselves;
+            # the reference only needs to be picklable, so it forwards to the default implementation
+            out.append('    def __getstate__(self):\n        return object.__getstate__(self)')
     names = [a['name'] for a in c['all_attrs']]
     out.append('    def _st(self):')
     out.append('        return (%s)' % ''.join('self.%s, ' % n for n in names))
